@@ -457,6 +457,20 @@ func driveGenerated(e *Exec, rng *lib.Rand) {
 				}
 			}
 			op.MaxL = mx
+			// agglomeration computed offline: some bodies made of two or three supervoxels
+			seen := map[uint64]bool{}
+			var ls []uint64
+			for _, b := range e.h.Layout {
+				if b.L != 0 && !seen[b.L] {
+					seen[b.L] = true
+					ls = append(ls, b.L)
+				}
+			}
+			for len(ls) >= 2 && rng.Chance(0.6) {
+				k := 2 + rng.Intn(min(2, len(ls)-1))
+				op.Groups = append(op.Groups, append([]uint64(nil), ls[:k]...))
+				ls = ls[k:]
+			}
 		}
 		return op
 	}
